@@ -12,6 +12,8 @@ import Pyiga.Proofs.AsmSym
 import Pyiga.Proofs.AsmFormat
 import Pyiga.Proofs.AsmSum
 import Pyiga.Proofs.AsmUpdate
+import Pyiga.Proofs.AsmBbox
+import Pyiga.Proofs.AsmFormatMaps
 
 namespace Pyiga.Props.C08
 open Pyiga.Index Pyiga.ML Pyiga.Asm Pyiga.Layout
@@ -122,6 +124,31 @@ theorem format_layout_entry (bs : List (Nat × Nat)) (bidx : List Pattern) (nc1 
        packedToBlocked (prod (bs.map (·.2))) nc0 (Sp.entryAt (μ ++ [m])).2) :=
   entryAt_blocked_packed bs bidx nc1 nc0 pc μ m hμ hbs hr hc
 
+/-- **format_layout as finite maps** (`blocked = Π·packed·Πᵀ`): for every position, the value of
+the matrix denoted by the blocked ML matrix (component level in front, data transposed) equals the
+value of the packed matrix with rows and columns relabelled by `Π` — COO duplicate summation on both
+sides, any data reader `rd`, any number of levels. -/
+theorem format_layout_maps {α : Type} [AddCommMonoid α] (bs : List (Nat × Nat)) (bidx : List Pattern)
+    (nc1 nc0 : Nat) (rd : List Nat → Nat → α) (hbs : bs.length = bidx.length) (i j : Nat) :
+    cooGet (blockedTriplesWith bs bidx nc1 nc0 rd) i j =
+      cooGet ((packedTriplesWith bs bidx nc1 nc0 rd).map
+        (permTriple (prod (bs.map (·.1))) (prod (bs.map (·.2))) nc1 nc0)) i j :=
+  blocked_eq_perm_packed bs bidx nc1 nc0 rd hbs i j
+
+/-- entrywise: with in-range level patterns, `blocked[Π r, Π c] = packed[r, c]` for all in-range
+positions (`Π` does not merge entries). -/
+theorem format_layout_maps_entrywise {α : Type} [AddCommMonoid α] (bs : List (Nat × Nat)) (bidx : List Pattern)
+    (nc1 nc0 : Nat) (rd : List Nat → Nat → α) (hbs : bs.length = bidx.length) (hr : PatsInRange bidx bs)
+    (r c : Nat) (hrr : r < prod (bs.map (·.1)) * nc1) (hcc : c < prod (bs.map (·.2)) * nc0) :
+    cooGet (blockedTriplesWith bs bidx nc1 nc0 rd)
+        (packedToBlocked (prod (bs.map (·.1))) nc1 r) (packedToBlocked (prod (bs.map (·.2))) nc0 c)
+      = cooGet (packedTriplesWith bs bidx nc1 nc0 rd) r c :=
+  blocked_entry_eq_packed bs bidx nc1 nc0 rd hbs (packedTriples_pos bs bidx nc1 nc0 rd hbs hr) r c hrr hcc
+
+/-- the formerly open statement: the two data loop nests enumerate the same positions up to the
+rotation `μ ++ [m] ↦ m :: μ` -/
+theorem format_layout_loop_rotation : loopNest_rotate_stmt := loopNest_rotate
+
 example : packedToBlocked 5 2 7 = 8 := by decide
 
 /-! ## subsets -/
@@ -143,6 +170,33 @@ def subset_bbox_full : Prop := entryImpl2_bbox_stmt
 /-- instance of the bbox statement (non-vacuity / sanity): supports `[2,5)`,`[3,7)`, offset 2 -/
 example : entryImpl2 [⟨2, 5⟩] [⟨3, 7⟩] [2] (fun q => (List.zipWith (· + ·) q [2]).getD 0 0)
     = entryImpl2 [⟨2, 5⟩] [⟨3, 7⟩] [0] (fun q => (q.getD 0 0 : Nat)) := by decide
+
+/-- **subset (bounding box)** — the formerly open statement, now proved for all supports, offsets
+and kernels. -/
+theorem subset_bbox : subset_bbox_full := entryImpl2_bbox
+
+/-- the on-demand entry is the full Gauss sum: with every array restricted to a bounding box that
+starts at `bbox_ofs` (not beyond the joint support), the entry computed with the shifted pointers
+equals the sum of the integrand over ALL nodes of the unrestricted grid (C01 `entry_eq_full_sum`
+composed with the shift) — the restriction of the same finite map. -/
+theorem subset_bbox_full_sum {α : Type} [AddCommMonoid α] {Jet : Type} [Zero Jet]
+    (suppU suppV : List Intv) (N ofs : List Nat)
+    (jetU jetV : List Nat → Jet) (integrand : Jet → Jet → List Nat → α)
+    (hlinU : ∀ y q, integrand 0 y q = 0) (hlinV : ∀ x q, integrand x 0 q = 0)
+    (hU : ∀ q ∈ loopNest N, ¬ InSupp suppU q → jetU q = 0)
+    (hV : ∀ q ∈ loopNest N, ¬ InSupp suppV q → jetV q = 0)
+    (hfU : SuppFits suppU N) (hfV : SuppFits suppV N)
+    (hofs : OfsBelow suppU suppV ofs) (hlen : ofs.length = N.length) :
+    entryImpl2 suppU suppV ofs
+        (fun q => (fun q' => integrand (jetU q') (jetV q') q') (List.zipWith (· + ·) q ofs))
+      = combine N (fun q => integrand (jetU q) (jetV q) q) := by
+  have hb := entryImpl2_bbox suppU suppV ofs (fun q' => integrand (jetU q') (jetV q') q') hofs
+  rw [hb]
+  have hz : zeros ofs = zeros N := by
+    unfold zeros
+    rw [List.map_const', List.map_const', hlen]
+  rw [hz]
+  exact entryImpl2_eq_full suppU suppV N jetU jetV integrand hlinU hlinV hU hV hfU hfV
 
 /-! ## update -/
 
